@@ -1,0 +1,40 @@
+//go:build verif
+
+// SPDX-License-Identifier: Apache-2.0
+// Copyright Authors of Cilium
+
+package statedb
+
+import "github.com/cilium/statedb/index"
+
+// Accessors for the verification harness in /verif (build tag "verif" only).
+
+func VerifEncodeNonUniqueKey(primary, secondary index.Key) []byte {
+	return encodeNonUniqueKey(primary, secondary)
+}
+
+// VerifNonUniqueKeyParts returns primaryLen, secondaryLen, encodedPrimary and
+// encodedSecondary of a composite key; a slice bounds panic is reported in the
+// respective *Panic result.
+func VerifNonUniqueKeyParts(k []byte) (primaryLen, secondaryLen int, encPrimary, encSecondary []byte, primaryPanic, secondaryPanic bool) {
+	nuk := nonUniqueKey(k)
+	primaryLen = nuk.primaryLen()
+	secondaryLen = nuk.secondaryLen()
+	func() {
+		defer func() {
+			if recover() != nil {
+				primaryPanic = true
+			}
+		}()
+		encPrimary = nuk.encodedPrimary()
+	}()
+	func() {
+		defer func() {
+			if recover() != nil {
+				secondaryPanic = true
+			}
+		}()
+		encSecondary = nuk.encodedSecondary()
+	}()
+	return
+}
